@@ -224,6 +224,9 @@ static void op_consume(Ctx &c, Model &M, Live &l) {
   if (l.dead) return;
   if (r >= 0) {
     VP_CHECK(c, bits(x) != kSentinel, "consume-no-data", "%s #%d: mpt_iterator_consume at %llu returns %d without storing a value", M.what.c_str(), l.id, (unsigned long long)p, r);
+    // the library's own consumers (mpt_fpoint_set, mpt_range_set, the iterator constructors) read a result of 0 as
+    // "the source had no element": an element that was consumed must be reported with a positive result
+    VP_CHECK(c, r > 0, "consume-reports-no-element", "%s #%d: mpt_iterator_consume at %llu stored %.17g but returns 0 (= no element for its callers)", M.what.c_str(), l.id, (unsigned long long)p, x);
     observe_present(c, M, l, x, true);
     l.pos = p + 1;
   } else {
